@@ -41,6 +41,9 @@ func run(c *hk.Ctx) {
 	keyGrid(c)
 	runReal(c)
 	runScripted(c)
+	runSizes(c)
+	runPrompt(c)
+	runKill(c)
 	runEcho(c)
 }
 
